@@ -279,7 +279,8 @@ def gen_packet(rng, spec: dict, maxlen: int = 12) -> Any:
         def val(d: int) -> Any:
             r = rng.random()
             if d > 2 or r < 0.3:
-                return rng.choice([0, -3, 17, 2.5, True, None, "a", "x\"y\\", "{[", "é", "", "\n"])
+                return rng.choice([0, -3, 17, 2.5, True, None, "a", "x\"y\\", "{[", "é", "", "\n",
+                                   "\\\"", "C:\\dir\\\"q\"", "\\\\\"]", "\\" * rng.randint(1, 4) + "\"" + "}" * rng.randint(0, 2)])
             if r < 0.65:
                 return [val(d + 1) for _ in range(rng.randint(0, 3))]
             return {rng.choice(["k", "a b", "}", "\\"]): val(d + 1) for _ in range(rng.randint(0, 2))}
